@@ -39,6 +39,7 @@ from tlz import (
 
 from dask import config
 from dask._task_spec import (
+    Alias,
     GraphNode,
     List,
     Task,
@@ -87,6 +88,20 @@ no_result = type(
 )
 
 
+def _count_references(node, key):
+    """Number of places in which ``node`` refers to ``key``"""
+    if isinstance(node, TaskRef):
+        return int(node.key == key)
+    if isinstance(node, Alias):
+        return int(node.target == key)
+    if isinstance(node, Task) and key in node.dependencies:
+        return sum(
+            _count_references(arg, key)
+            for arg in itertools.chain(node.args, node.kwargs.values())
+        )
+    return 0
+
+
 def lazify_task(task, start=True):
     """
     Given a task, remove unnecessary calls to ``list`` and ``reify``.
@@ -116,8 +131,15 @@ def lazify_task(task, start=True):
             subgraph, outkey, inkeys, *dependencies = task.args
             # If there is a reify at the output of the subgraph we don't want to act
             final_task = lazify_task(subgraph[outkey], True)
+            # The result of an inner task is shared by everything in the subgraph
+            # that refers to it. It can only stay an iterator if it is consumed once
             subgraph = {
-                k: lazify_task(v, False) for k, v in subgraph.items() if k != outkey
+                k: lazify_task(
+                    v,
+                    sum(_count_references(t, k) for t in subgraph.values()) != 1,
+                )
+                for k, v in subgraph.items()
+                if k != outkey
             }
             subgraph[outkey] = final_task
             return Task(
